@@ -658,6 +658,44 @@ fn sw_aliases(a: &mut Acc, b: &[u8]) {
         a.same("TcpOptions::len_u8", (h.options.len_u8() as usize, h.options.is_empty()), (h.options.len(), h.options.as_slice().is_empty()));
         a.same("TcpOptions::len", h.options.len(), h.options.as_slice().len());
     }
+    // hand-written Hash / Ord / AsRef / Borrow / Deref of the values with an internal buffer: equal values hash alike and compare Equal,
+    // every byte view is the option area; a value that reached its state through a longer one (stale buffer bytes) is the same value
+    fn hs<T: Hash>(t: &T) -> u64 {
+        let mut h = std::collections::hash_map::DefaultHasher::new();
+        t.hash(&mut h);
+        h.finish()
+    }
+    use std::borrow::Borrow;
+    use std::cmp::Ordering;
+    if let Ok((h, _)) = Ipv4Header::from_slice(b) {
+        let o = h.options.clone();
+        if let Ok(o2) = Ipv4Options::try_from(o.as_slice()) {
+            a.same("Ipv4Options::hash/ord", (o == o2, hs(&o) == hs(&o2), o.cmp(&o2), o.partial_cmp(&o2)), (true, true, Ordering::Equal, Some(Ordering::Equal)));
+        }
+        let other = Ipv4Options::try_from(&[1u8, 1, 1, 0][..]).unwrap();
+        a.same("Ipv4Options::ord_vs_eq", o.cmp(&other) == Ordering::Equal, o == other);
+        let (r, bb): (&[u8], &[u8]) = (o.as_ref(), o.borrow());
+        a.same("Ipv4Options::as_ref/borrow/deref", (r, bb, &o[..]), (o.as_slice(), o.as_slice(), o.as_slice()));
+    }
+    if let Ok((h, _)) = TcpHeader::from_slice(b) {
+        let o = h.options.clone();
+        if let Ok(o2) = TcpOptions::try_from_slice(o.as_slice()) {
+            a.same("TcpOptions::hash/ord", (o == o2, hs(&o) == hs(&o2), o.cmp(&o2), o.partial_cmp(&o2)), (true, true, Ordering::Equal, Some(Ordering::Equal)));
+        }
+        let other = TcpOptions::try_from_slice(&[1u8, 1, 1, 0][..]).unwrap();
+        a.same("TcpOptions::ord_vs_eq", o.cmp(&other) == Ordering::Equal, o == other);
+        let r: &[u8] = o.as_ref();
+        a.same("TcpOptions::as_ref/deref", (r, &o[..]), (o.as_slice(), o.as_slice()));
+    }
+    if let Ok(sl) = ArpPacketSlice::from_slice(b) {
+        let p = sl.to_packet();
+        let big = [0xEEu8; 40];
+        if let Ok(mut p2) = ArpPacket::new(p.hw_addr_type, p.proto_addr_type, p.operation, &big, &big, &big, &big) {
+            if p2.set_hw_addrs(p.sender_hw_addr(), p.target_hw_addr()).is_ok() && p2.set_protocol_addrs(p.sender_protocol_addr(), p.target_protocol_addr()).is_ok() {
+                a.same("ArpPacket::eq/hash after shrinking", (p2 == p, hs(&p2) == hs(&p), p2.to_bytes() == p.to_bytes()), (true, true, true));
+            }
+        }
+    }
     // the two payload views of a link slice: same bytes; the SLL view of an Ethernet payload names its ether type, the ether view of an
     // SLL payload exists exactly when the protocol type is an ether type
     for sll in [false, true] {
